@@ -41,7 +41,10 @@ def run(ctx):
             det.update({"issue": "not (x, f(y) | finv(x), y), treated units first", "returned": t.tolist()}); ctx.violation("oracle", det, site="potential_outcomes"); continue
         ops.append(f"potout|{rats(x)}|{rats(y)}|{rat(a)}|{rat(b)}"); meta.append(("potout", det, t.tolist()))
     # pairs that are not inverse to each other are rejected
-    for f, finv in [(lambda u: u + 1, lambda u: u + 1), (lambda u: 2 * u, lambda u: u - 2), (lambda u: u * u, lambda u: u)]:
+    one_way = [(lambda u: 10 * u, lambda u: u // 10), (lambda u: u // 10, lambda u: 10 * u), (lambda u: 3 * u, lambda u: np.round(u / 3)),
+               (lambda u: np.round(u / 3), lambda u: 3 * u), (lambda u: u + 0.5, lambda u: np.floor(u)), (lambda u: np.floor(u / 2), lambda u: 2 * u),
+               (lambda u: 2 * u, lambda u: np.floor(u / 2) + (u % 2))]       # inverse in one direction only
+    for f, finv in [(lambda u: u + 1, lambda u: u + 1), (lambda u: 2 * u, lambda u: u - 2), (lambda u: u * u, lambda u: u)] + one_way:
         r = guarded(utils.potential_outcomes, np.array([1.0, 2.0]), np.array([3.0]), f, finv)
         ctx.case(("po-reject", id(f)), True); ctx.count("non-inverse-pairs")
         if r[0] != "exc":
@@ -100,6 +103,24 @@ def run(ctx):
                 det2 = dict(det); det2.update({"issue": "shift d: not the statistic of the data as given / not the p-value of two_sample(x, y+d) under the same seed",
                                                "returned": [float(rc[1][0]), float(rc[1][1])], "two_sample_translated": str(r3)[:200], "statistic_expected": float(obs)})
                 ctx.violation("oracle", det2, site="two_sample_shift")
+    # ---- very large constant shifts (|d| >= 2^53: y + d absorbs y in doubles).  Exact agreement with two_sample(x, y+d) is not
+    #      demanded there (the translated data are not representable); the call must still answer, report the statistic of the data as
+    #      given and a p-value k/(reps+c)
+    for _ in range(ctx.n(40, 400)):
+        nx, ny = ctx.rng.randint(1, 5), ctx.rng.randint(1, 5)
+        x = rt.small_values(ctx.rng, nx, "halves"); y = rt.small_values(ctx.rng, ny, "halves")
+        d = ctx.rng.choice([2.0**53, -2.0**53, 1e16, 1e17, 2.0**60, -2.0**60, 1e300, 2**53, 10**17])
+        reps = ctx.rng.choice([1, 5, 20]); plus1 = ctx.rng.random() < 0.5; alt = ctx.rng.choice(["greater", "less", "two-sided"])
+        r = guarded(core.two_sample_shift, np.array(x), np.array(y), reps=reps, stat="mean", alternative=alt, keep_dist=ctx.rng.random() < 0.5,
+                    seed=ctx.rng.randint(0, 10**6), shift=d, plus1=plus1)
+        det = {"call": "two_sample_shift", "x": x, "y": y, "shift": d if isinstance(d, float) else str(d), "reps": reps, "alternative": alt, "plus1": plus1}
+        ctx.case(("huge-shift", tuple(x), tuple(y), str(d), reps, alt, plus1), True, det); ctx.count("huge-constant-shifts")
+        obs = sum(F(v) for v in x) / nx - sum(F(v) for v in y) / ny
+        from .common import numerator_of
+        if r[0] != "ok" or not close(r[1][1], obs) or numerator_of(r[1][0], reps + (1 if plus1 else 0)) is None or not (0 <= r[1][0] <= 1):
+            det.update({"issue": "a very large constant shift is not handled: the call fails, or does not report the statistic of the data as given / a p-value k/(reps+c)",
+                        "returned": str(r[1:])[:300], "statistic_expected": float(obs)})
+            ctx.violation("oracle", det, site="two_sample_shift")
     # ---- missing shift / a single callable
     for sh, what in [(None, "missing shift"), ((lambda u: u), "a single callable"), ("3", "a string")]:
         r = guarded(core.two_sample_shift, np.array([1.0, 2.0]), np.array([3.0, 4.0]), reps=2, shift=sh, seed=1)
